@@ -516,3 +516,9 @@ Example log_contract_hyp_met :
   events_consistent [LcEntries {| en_lbl_short := false; en_ts := 3; en_msg := 3; en_val := 3; en_types := 3; en_bad_type := true;
                                    en_series := 2; en_bytes := 2000000 |}; LcPanic] = true.
 Proof. split; reflexivity. Qed.
+
+(* every recover scope of writer/ is known: recover() is called in the two tamePanic functions only, and exactly the
+   three decoder goroutines defer one *)
+Theorem recover_scopes_match_source : scopes_eqb gen_recover_scopes recover_scopes_model = true.
+Proof. vm_compute. reflexivity. Qed.
+Print Assumptions recover_scopes_match_source.
